@@ -1516,3 +1516,12 @@ mut("c04-inv-locator-tip-only", ["C04"], [(BM, '''			knownLocator, err := b.cfg.
 			// Get headers based on locator.
 			err = imsg.peer.PushGetHeadersMsg(locator,''', '''			// Get headers based on locator.
 			err := imsg.peer.PushGetHeadersMsg(locator,''')], ["C04.O3"])
+mut("quiet-parseipnet-netip-unmap", ["C13"], [(BU, '''	ip := net.ParseIP(host)
+	switch {
+	case ip.To4() != nil:''', '''	ip := net.ParseIP(host)
+	if a, perr := netip.ParseAddr(host); perr == nil && a.Unmap().Is4() {
+		b4 := a.Unmap().As4()
+		ip = net.IP(b4[:])
+	}
+	switch {
+	case ip.To4() != nil:'''), (BU, 'import (\n', 'import (\n\t"net/netip"\n')], [])
